@@ -1195,6 +1195,42 @@ fn layout_program(rng: &mut Rng) -> String {
     }
 }
 
+/// W9d: alpha-equivalent dependent types spelled with different binder names, compared with one
+/// another and with aliases inside one unification, with a hole in one position (whichever
+/// spelling a normal-form cache, an interner or a "seen before" shortcut hands back becomes
+/// visible in the elaborated term).
+fn alpha_variants_program(rng: &mut Rng) -> String {
+    let blocks = rng.range(3, 30);
+    let width = rng.range(2, 5);
+    let shape = rng.below(3);
+    let spell = |name: &str| match shape {
+        0 => format!("(({name} : type) -> {name} -> {name})"),
+        1 => format!("(({name} : type) -> ({name} -> {name}) -> {name})"),
+        _ => format!("(({name} : type) -> {name} -> ({name} -> type))"),
+    };
+    let alias_body = match shape {
+        0 => "(c : type) -> c -> c",
+        1 => "(c : type) -> (c -> c) -> c",
+        _ => "(c : type) -> c -> (c -> type)",
+    };
+    let mut lines = vec![format!("poly = {alias_body}")];
+    lines.push(format!("(tuple : {}) =>", vec!["type"; width + 2].join(" -> ")));
+    for i in 0..blocks {
+        let lhs: Vec<String> = (0..width).map(|j| spell(&format!("a{i}x{j}"))).collect();
+        let rhs: Vec<String> = (0..width)
+            .map(|j| if rng.chance(2, 3) { "poly".to_owned() } else { spell(&format!("c{i}y{j}")) })
+            .collect();
+        lines.push(format!(
+            "g{i} = (f : tuple {} _ -> int) => (p : tuple {} {}) => f p",
+            lhs.join(" "),
+            rhs.join(" "),
+            spell(&format!("b{i}"))
+        ));
+    }
+    lines.push(if rng.chance(1, 2) { "0".to_owned() } else { format!("g{}", rng.below(blocks)) });
+    lines.join("\n") + "\n"
+}
+
 /// More shapes that seeded changes needed (kept together so that the reason stays visible).
 fn targeted_program(rng: &mut Rng) -> String {
     match rng.below(4) {
@@ -1469,9 +1505,10 @@ fn generate_base(rng: &mut Rng, corpus: &[String]) -> Case {
         69..=73 => Case { family: "W6-holes", source: holes_program(rng) },
         74..=79 => Case { family: "W8-runtime", source: runtime_program(rng) },
         80..=85 => {
-            let source = match rng.below(6) {
+            let source = match rng.below(7) {
                 0 | 1 => hole_argument_program(rng),
                 2 => type_level_program(rng),
+                3 => alpha_variants_program(rng),
                 _ => dependent_program(rng),
             };
             Case { family: "W9-dependent", source }
